@@ -1,6 +1,8 @@
 import Cvise.Proofs.PassesC07
 import Cvise.Proofs.PassesLines
 import Cvise.Proofs.BinaryNoSingle
+import Cvise.Proofs.PassesBalOffers
+import Cvise.Proofs.PassesTernTerm
 /-!
 # C07 — candidates are genuine, local edits of the current file
 
@@ -53,5 +55,36 @@ theorem single_line_offered {α : Type} [DecidableEq α] (l : List α) (j : Nat)
   intro hlen
   have := Cvise.no_accept_no_single _ l fuel r h hlen j hj
   simp at this
+
+/-- **balanced: every instance is eventually offered when all candidates are rejected** (arguments without a prefix
+    expression, i.e. all but `curly3`): for every genuinely balanced group `[a, b)` of the input whose edit changes the
+    text, the all-reject enumeration of length > |s| produces exactly that group's candidate -/
+theorem balanced_offers_all (cfg : BalCfg) (hp : cfg.pre = none) (s : Text) (a b : Nat) (hb : Bal cfg.o cfg.c s a b)
+    (hch : cfg.recipe.eval s [a, b] ≠ s) (n : Nat) (hn : s.length < n) :
+    (PR.ok, cfg.recipe.eval s [a, b]) ∈ (runHistory (balanced cfg) (List.replicate n false) s ((balanced cfg).new s) []).1 :=
+  P.balanced_offers_all cfg hp s a b hb hch n hn
+
+/-- balanced, deleting arguments (all but `parens-to-zero` and `curly2`): the candidate is a proper subsequence of the input,
+    for every cursor the search can return (a span of ≥ 2 characters inside the text) -/
+theorem balanced_deletion_sublist (cfg : BalCfg) (hd : deletingShape cfg.recipe = true) (s : Text) (st : M.Span) (hI : BalI s st)
+    (out : Text) (st' : M.Span) (h : (balanced cfg).transform s st = (.ok, out, st')) : out.Sublist s ∧ out ≠ s :=
+  P.balanced_deletion_sublist cfg hd s st hI out st' h
+theorem balanced_deleting_args :
+    (Gen.balancedCfg.filter (fun x => !deletingShape x.2.2.2.2)).map (·.1) = ["parens-to-zero", "curly2"] := P.balanced_deleting_args
+/-- the hypothesis `BalI` holds for everything `new` / `advance` / `advance_on_success` return -/
+theorem balanced_cursors_wellformed (cfg : BalCfg) (s : Text) (pos : Int) (st : M.Span) (h : balFind cfg s pos = some st) : BalI s st :=
+  let sp := balFind_span cfg s pos st h
+  ⟨sp.2.1, sp.2.2⟩
+
+/-- ternary: a produced candidate is a proper subsequence of the input (one operand kept), for every cursor the search
+    can return (`TernI`: a sequence match of the seven parts; `ternary_cursors_wellformed`) -/
+theorem ternary_sublist (arg : String) (harg : arg = "b" ∨ arg = "c") (s : Text) (st : TernSt) (hI : TernI s st)
+    (out : Text) (st' : TernSt) (h : (ternary arg).transform s st = (.ok, out, st')) : out.Sublist s ∧ out ≠ s :=
+  P.ternary_sublist arg harg s st hI out st' h
+theorem ternary_cursors_wellformed (s : Text) (pos : Int) (st : TernSt) (h : ternSearch s pos = some st) : TernI s st :=
+  (ternSearch_spec s pos st h).2
+
+/-- all shipped arguments but one have no prefix expression -/
+theorem balanced_prefix_free : (Gen.balancedCfg.filter (fun x => x.2.2.2.1.isSome)).map (·.1) = ["curly3"] := by decide +kernel
 
 end Cvise.C07
